@@ -36,7 +36,7 @@ RULES = {
     "C25.pulldown_follows_request": "pulldown.o equals dp_pulldown | dm_pulldown",
 }
 PROBES = ["tx_packets", "tx_stuffed_bits", "tx_stuff_at_packet_end", "tx_first_byte_five_ones", "rx_packets", "rx_stuffed_bits",
-          "rx_fast_line", "rx_slow_line", "rx_min_gap", "bitstuff_error_injected", "opmode1_with_tx_valid", "opmode2_with_tx_valid",
+          "rx_fast_line", "rx_slow_line", "rx_min_gap", "bitstuff_error_injected", "opmode1_with_tx_valid", "opmode2_with_tx_valid", "opmode1_selected_mid_packet",
           "pulldown_requested", "term_select_toggles", "rx_after_error_packet", "tx_first_byte_cyclic_six_ones"]
 META = {
     "components_real": ["GatewarePHY", "TxPipeline", "TxShifter", "TxBitstuffer", "TxNRZIEncoder", "RxPipeline", "RxClockDataRecovery",
@@ -106,7 +106,13 @@ def gen(rng, tier, index):
             ops.append({"op": "ctrl", "set": sets})
         elif not fault_free:
             m = rng.choice([1, 1, 2])
-            ops.append({"op": "tx_nd", "op_mode": m, "data": _payload(rng, rng.randint(1, 6)).hex(), "n": rng.randint(2, 40)})
+            if rng.random() < 0.35:
+                # non-driving mode selected while a packet that started in normal mode is still on its way out
+                n = rng.randint(2, 6)
+                ops.append({"op": "tx_switch", "op_mode": 1, "data": _payload(rng, n).hex(), "switch_after": rng.randint(0, n - 1),
+                            "delay": rng.randint(0, 9), "hold": rng.randint(90, 140)})
+            else:
+                ops.append({"op": "tx_nd", "op_mode": m, "data": _payload(rng, rng.randint(1, 6)).hex(), "n": rng.randint(2, 40)})
         else:
             ops.append({"op": "idle", "n": rng.randint(1, 30)})
     return {"engine": ENGINE, "config": cfg, "ops": ops}
@@ -243,6 +249,42 @@ class _Actor:
                 rec["extra_ready"] = extra
                 for _ in range(op.get("gap", 2)):
                     s = yield None
+            elif kind == "tx_switch":
+                data = bytes.fromhex(op["data"])
+                i = waited = since = 0
+                switched = False
+                pins = self._set(tx_valid=1, tx_data=data[0])
+                while True:
+                    s = yield pins
+                    pins = None
+                    if not switched and i >= op["switch_after"]:
+                        if since >= op["delay"]:
+                            pins = self._set(op_mode=op["op_mode"])
+                            switched = True
+                            rec["t_mode"] = self.t + 12          # three usb cycles of slack, as for tx_nd
+                        since += 1
+                    if s["tx_ready"] and self.pins["tx_valid"]:
+                        i += 1
+                        waited = 0
+                        if i >= len(data):
+                            break
+                        pins = dict(pins or {})
+                        pins.update(self._set(tx_data=data[i]))
+                    else:
+                        waited += 1
+                        if waited > 40:
+                            break
+                if not switched:
+                    pins = self._set(op_mode=op["op_mode"])
+                    rec["t_mode"] = self.t + 12
+                    s = yield pins
+                s = yield self._set(tx_valid=0, tx_data=0)
+                for _ in range(op["hold"]):
+                    s = yield None
+                rec["t_mode_end"] = self.t
+                s = yield self._set(op_mode=0)
+                for _ in range(8):
+                    s = yield None
             elif kind == "tx_nd":
                 data = bytes.fromhex(op["data"])
                 s = yield self._set(op_mode=op["op_mode"])
@@ -327,10 +369,16 @@ def run(scn):
 
     # ---- C25.never_drive_nondriving / tx_nd windows -------------------------------------------------------------
     for r in recs:
-        if r["kind"] != "tx_nd":
+        if r["kind"] not in ("tx_nd", "tx_switch"):
             continue
         m = r["op"]["op_mode"]
-        probes["opmode1_with_tx_valid" if m == 1 else "opmode2_with_tx_valid"] += 1
+        if r["kind"] == "tx_switch":
+            probes["opmode1_selected_mid_packet"] += 1
+            for i, (a, b) in enumerate(oe_iv):
+                if a < r["t_mode_end"] and b > r["t0"]:
+                    used_iv.add(i)           # the part of the packet sent before the switch is not judged
+        else:
+            probes["opmode1_with_tx_valid" if m == 1 else "opmode2_with_tx_valid"] += 1
         for i, (a, b) in enumerate(oe_iv):
             if a < r["t_mode_end"] and b > r["t_mode"]:
                 used_iv.add(i)
